@@ -83,8 +83,30 @@ fn c18_ops() {
             1 => {
                 if let Some(a) = &last {
                     let ok = choice(2) == 1;
-                    note(format!("op{i}: status {a} success={ok}"));
-                    store.update_addr_status(a, ok);
+                    // the address a status is reported for: the one added last, or one the cache does not track for that
+                    // peer -- another port, a relayed address through the peer, an ip6 address, one without a transport
+                    // (a report must not become a second way into the cache that skips what add_addr enforces)
+                    let peer = multiaddr_get_peer_id(a).expect("stored addresses carry a peer id");
+                    let target = match choice(5) {
+                        0 => a.clone(),
+                        1 => Multiaddr::empty().with(P::Ip4(Ipv4Addr::new(10, 0, 0, 9))).with(P::Udp(9)).with(P::QuicV1).with(P::P2p(peer)),
+                        2 => a.clone().with(P::P2pCircuit).with(P::P2p(pid(3))),
+                        3 => Multiaddr::empty().with(P::Ip6(std::net::Ipv6Addr::LOCALHOST)).with(P::Udp(9)).with(P::QuicV1).with(P::P2p(peer)),
+                        _ => Multiaddr::empty().with(P::P2p(peer)),
+                    };
+                    if &target != a {
+                        cover("status_of_an_untracked_address");
+                    }
+                    note(format!("op{i}: status {target} success={ok}"));
+                    store.update_addr_status(&target, ok);
+                    // limits and shape hold after a report as well (expiry / reliability are clean-up's business)
+                    check_bool("after_status:at_most_max_peers", store.data.peers.len() <= store.config().max_peers);
+                    for (p, addrs) in store.data.peers.iter() {
+                        check_bool("after_status:at_most_max_addrs_per_peer", addrs.0.len() <= store.config().max_addrs_per_peer);
+                        for b in addrs.0.iter() {
+                            check_well_formed(p, &b.addr, "after_status");
+                        }
+                    }
                 }
             }
             2 => {
